@@ -509,14 +509,12 @@ func TestVerifC08(t *testing.T) {
 	// exhaustive: every history of length ≤ L over a small alphabet (1 phantom, 1 secret, 2 transports).
 	// `s+30` lets unused registrations survive a sweep, `t` on the second transport gives a tracked but
 	// never validated sibling.
-	alpha8 := []c08Op{
+	alpha10 := []c08Op{
 		{kind: 'r', tr: 0}, {kind: 'r', tr: 1}, {kind: 't', tr: 0}, {kind: 'm', tr: 0}, {kind: 'm', tr: 1},
-		{kind: 's', now: 630}, {kind: 's', now: 21630}, {kind: 'l'},
+		{kind: 's', now: 630}, {kind: 's', now: 21630}, {kind: 'l'}, {kind: 's', now: 30}, {kind: 't', tr: 1},
 	}
-	alpha10 := append(append([]c08Op(nil), alpha8...), c08Op{kind: 's', now: 30}, c08Op{kind: 't', tr: 1})
 	if vlib.Tier() == "thorough" {
-		c08Exhaustive(out, alpha8, 6)
-		c08Exhaustive(out, alpha10, 5)
+		c08Exhaustive(out, alpha10, 6) // 1.1 million histories
 	} else {
 		c08Exhaustive(out, alpha10, 4)
 	}
